@@ -401,7 +401,7 @@ class Gen(object):
         PS = self.odl.operator.pspace_ops
         if depth <= 0 or rng.random() < 0.12:
             return self.leaf(dom, ran)
-        kinds = ['sum', 'comp', 'comp', 'lscal', 'rscal']
+        kinds = ['sum', 'comp', 'comp', 'lscal', 'rscal', 'ovl', 'ovl']
         if not self.is_c(ran):
             kinds += ['pprod']
         if not self.is_f(ran):
@@ -423,6 +423,39 @@ class Gen(object):
             kinds += ['pso'] * 4
         k = rng.choice(kinds)
         d = depth - 1
+        if k == 'ovl':
+            # through the arithmetic overloads of Operator (they build the same classes)
+            how = ['add', 'sub', 'neg', 'smul', 'muls', 'div']
+            if not self.is_f(ran):
+                how += ['addv']
+            if not self.is_f(ran) and not self.is_c(ran):
+                how += ['vmul']
+            if not self.is_f(dom) and not self.is_c(dom):
+                how += ['mulv']
+            if dom == ran:
+                how += ['pow']
+            h = rng.choice(how)
+            a = self.tree(dom, ran, d)
+            sc = rng.choice([2.0, -1.0, 0.5, -2.0, 4.0])
+            if h == 'add':
+                return a + self.tree(dom, ran, d)
+            if h == 'sub':
+                return a - self.tree(dom, ran, d)
+            if h == 'neg':
+                return -a
+            if h == 'smul':
+                return sc * a
+            if h == 'muls':
+                return a * sc
+            if h == 'div':
+                return a / sc
+            if h == 'addv':
+                return a + self.el(ran)
+            if h == 'vmul':
+                return self.el(ran) * a
+            if h == 'mulv':
+                return a * self.el(dom)
+            return a ** rng.choice([2, 2, 3])
         if k == 'sum':
             return O.OperatorSum(self.tree(dom, ran, d), self.tree(dom, ran, d))
         if k == 'vecsum':
